@@ -18,6 +18,7 @@ import shutil
 import threading
 
 import vlib
+from props import c16_timer_pool   # the timer-wheel and buffer-pool legs (TimerWheel.tla, BufferPool.tla)
 
 PID = "C16"
 
@@ -301,6 +302,9 @@ def run(tier, replay=None):
     bins = vlib.cargo_build(["replay_sessions", "drive_sessions"])
     devs = vlib.open_deviations(PID)
 
+    if replay and c16_timer_pool.handles(replay):
+        c16_timer_pool.replay(rep, replay)
+        rep.finish()
     if replay:
         # --replay <trace.ndjson | behaviours.ndjson>: re-run one artefact verbosely
         first = open(replay).readline()
@@ -330,6 +334,7 @@ def run(tier, replay=None):
             rep.cov["traces_validated_against_impl"] = 1
         rep.finish()
 
+    tp = c16_timer_pool.start(tier, wd)   # own threads; merged into the report at the end
     out = {}
     th = [threading.Thread(target=run_tlc_legs, args=(wd, tier, devs, out)),
           threading.Thread(target=run_live_legs, args=(wd, tier, devs, out)),
@@ -417,5 +422,6 @@ def run(tier, replay=None):
         "the hook events are emitted by the worker thread in execution order; harness observations are merged causally (an action is logged before it is performed, an observation after draining the hook channel)",
         "served = the client received at least one byte from sozu and poll(POLLRDHUP) does not yet report the peer's close",
     ]
+    tp.merge_into(rep)
     shutil.rmtree(os.path.join(wd, "states"), ignore_errors=True)
     rep.finish()
